@@ -99,8 +99,19 @@ def check_guard(ctx, fi, var):
                         break
                     guard = getattr(guard, '_parent', None)
                 ok, why = False, 'assignment is not inside the true branch of a sufficient-decrease test'
-                if in_true and isinstance(guard.test, ast.Compare) and len(guard.test.ops) == 1:
-                    t = guard.test
+                from ..normalise import Defs, expand
+                gtest = None
+                if in_true:
+                    # only definitions that precede the guard in the loop body may be looked through
+                    before = []
+                    for b in loop.body:
+                        if b is guard or guard in list(ast.walk(b)):
+                            break
+                        before.append(b)
+                    gtest = expand(guard.test, Defs(before), keep=tuple(n for n in names_in(guard.test) if n not in
+                                                                        {x for b in before for x in names_assigned(b)}))
+                if in_true and isinstance(gtest, ast.Compare) and len(gtest.ops) == 1:
+                    t = gtest
                     op = t.ops[0]
                     left, right = t.left, t.comparators[0]
                     if isinstance(op, (ast.LtE, ast.Lt)):
@@ -131,6 +142,14 @@ def check_guard(ctx, fi, var):
                                % (U(t), new, 'is' if evaluated_at_cand else 'is NOT', cand, old, 'is' if upd else 'is NOT'))
                 ctx.ob('guarded-replacement', fi, s, ok, why)
     ctx.floor('assignments of the returned iterate inside the loop', n, 1)
+
+
+def names_assigned(stmt):
+    out = set()
+    for n in ast.walk(stmt):
+        if isinstance(n, ast.Name) and isinstance(n.ctx, ast.Store):
+            out.add(n.id)
+    return out
 
 
 def check_estimate(ctx, est, emd):
